@@ -120,7 +120,7 @@ PROPS = {
                         'the theorems take the lines of a setfile to be distinct names (NoDup): my_fileset_reload realises that since the repair F12 (b41bbf6) by keeping one entry per path - before it, a path named twice led to a use after free; engine fs writes such setfiles and compares with the model on the distinct lines; two DIFFERENT spellings of one path (a.mtbl and ./a.mtbl) are two names',
                         '"more than the interval has elapsed" is evaluated on whole seconds, as the code and the man page do (observation O5)',
                         'all clauses (T07a safety, T07b view, T07d/e pinning and deferred reload, T07c timing) are proved on the model for every history; engine fs ties the model to the C code'],
-        'explanation': 'T07g: the text of the setfile as the read loop of my_fileset_reload takes it (model/Setfile.v) - one name per line, last newline optional; every setfile text of a history is read through the extracted model. '
+        'explanation': 'T07g: the text of the setfile as the read loop of my_fileset_reload takes it (model/Setfile.v) - one name per line, last newline optional; every setfile text of a history is read through the extracted model, and my_fileset_reload is run directly on arbitrary texts (empty lines, NUL-cut lines, missing files, repeats, no final newline) against it. '
             'State-machine model of fileset.c + my_fileset.c over an abstract world (setfile, files, clock). Engine fs runs random and directed histories (setfile rewrites with relative/absolute/missing/not-a-table lines, file creation/deletion, clock advances around the interval, reload, reload_now, iterators opened early and drained late, dups with filters and intervals 0/n/NEVER, destruction in any order) on the real code and the model and compares the set of tables every iterator sees.',
     },
     'C12': {
